@@ -530,7 +530,8 @@ func (x *Exec) findLoops() {
 	for h := range x.loops {
 		hs = append(hs, h)
 	}
-	sort.Slice(hs, func(i, j int) bool { return blockPos(hs[i]) < blockPos(hs[j]) })
+	// loop ordinals follow block creation order, which follows source order (outer before inner, earlier before later)
+	sort.Slice(hs, func(i, j int) bool { return hs[i].Index < hs[j].Index })
 	for i, h := range hs {
 		x.loops[h].ordinal = i + 1
 		if x.fc != nil {
